@@ -10,6 +10,7 @@
   (all call ids through the real dispatcher, button gestures; tools/props/c12.py).
 -/
 import SuplaVerif.Model.CalCfg
+import SuplaVerif.Model.CfgButton
 import SuplaVerif.Gen.Consts
 
 namespace SuplaVerif.C12
@@ -82,5 +83,134 @@ example : (calcfg Gen.calConsts { channel := 0, command := Gen.calConsts.cmdEnte
 example : (calcfg Gen.calConsts { channel := 0, command := Gen.calConsts.cmdEnterCfg, auth := 0, dataType := 0, dataSize := 0 } []).result = Gen.calConsts.resUnauth := by decide
 example : (calcfg Gen.calConsts { channel := 1, command := Gen.calConsts.cmdRecalibrate, auth := 1, dataType := 0, dataSize := 0 }
     [⟨0, true⟩, ⟨1, true⟩]).recalibrated = [1] := by decide
+
+/-! ### the configuration button (legacy input handling) -/
+
+/-- what holds between events while the device is in normal operation -/
+structure CbInv (s : CbSt) : Prop where
+  armedHeld : s.armed = true → s.last = true ∧ s.chgLvl = true ∧ s.chgT = s.lastAct
+  counted : s.click ≤ s.streak
+
+theorem cbInv_init : CbInv {} := ⟨(fun h => by cases h), Nat.le_refl _⟩
+
+theorem cbClick_le_streak (c : CbCfg) (s : CbSt) (ns : Bool) (now : Nat) (h : s.click ≤ s.streak) :
+    cbClick c s ns now ≤ cbStreak c s now := by
+  unfold cbClick cbStreak
+  by_cases hf : now - s.lastAct ≥ c.windowUs
+  · rw [if_pos hf, if_pos hf]; exact Nat.le_refl _
+  · rw [if_neg hf, if_neg hf]
+    by_cases hk : cbCounts c ns = true
+    · rw [if_pos hk]; omega
+    · rw [if_neg hk]; omega
+
+theorem cbChange_inv (c : CbCfg) (s : CbSt) (ns : Bool) (now : Nat) (h : CbInv s) (hno : (cbChange c s ns now).2 = false) :
+    CbInv (cbChange c s ns now).1 := by
+  unfold cbChange at hno ⊢
+  by_cases hc : c.onToggle = true ∧ cbClick c s ns now ≥ c.count
+  · rw [if_pos hc] at hno; cases hno
+  · rw [if_neg hc]
+    refine ⟨?_, cbClick_le_streak c s ns now h.counted⟩
+    intro ha
+    simp only [Bool.and_eq_true] at ha
+    simp [ha.1]
+
+theorem cbTick_inv (c : CbCfg) (s : CbSt) (now : Nat) (h : CbInv s) : CbInv (cbTick c s now).1 := by
+  unfold cbTick
+  by_cases hc : s.armed = true ∧ s.last = true ∧ c.onHold = true ∧ now - s.lastAct ≥ c.pressUs
+  · rw [if_pos hc]
+    exact ⟨(fun ha => by cases ha), Nat.zero_le _⟩
+  · rw [if_neg hc]; exact h
+
+/-- **C12.B1 (hold)** the timer callback starts configuration mode only if the last recognised change of the button was a
+    press and the configured hold time (5 s) has passed since: the button has been held for that long -/
+theorem c12_hold_needs_press_time (c : CbCfg) (s : CbSt) (now : Nat) (h : CbInv s) (hs : (cbTick c s now).2 = true) :
+    c.onHold = true ∧ s.chgLvl = true ∧ now - s.chgT ≥ c.pressUs := by
+  unfold cbTick at hs
+  by_cases hc : s.armed = true ∧ s.last = true ∧ c.onHold = true ∧ now - s.lastAct ≥ c.pressUs
+  · obtain ⟨_, h2, h3⟩ := h.armedHeld hc.1
+    exact ⟨hc.2.2.1, h2, by rw [h3]; exact hc.2.2.2⟩
+  · rw [if_neg hc] at hs; cases hs
+
+/-- **C12.B2 (toggles)** a recognised change starts configuration mode only if toggling is enabled for the button and this
+    is at least the tenth (`count`-th) change in a row none of which came 2 s or more after the preceding press -/
+theorem c12_toggle_needs_ten (c : CbCfg) (s : CbSt) (ns : Bool) (now : Nat) (h : CbInv s) (hcount : 2 ≤ c.count)
+    (hs : (cbChange c s ns now).2 = true) :
+    c.onToggle = true ∧ (cbChange c s ns now).1.streak ≥ c.count ∧ now - s.lastAct < c.windowUs := by
+  unfold cbChange at hs ⊢
+  by_cases hc : c.onToggle = true ∧ cbClick c s ns now ≥ c.count
+  · rw [if_pos hc]
+    have hle := cbClick_le_streak c s ns now h.counted
+    refine ⟨hc.1, Nat.le_trans hc.2 hle, ?_⟩
+    have h2 := hc.2
+    unfold cbClick at h2
+    by_cases hf : now - s.lastAct ≥ c.windowUs
+    · rw [if_pos hf] at h2; omega
+    · omega
+  · rw [if_neg hc] at hs; cases hs
+
+/-- for the constants of the source: ten changes, 5 s -/
+theorem c12_button_consts : Gen.cfgBtnPressCount = 10 ∧ Gen.cfgBtnPressTimeMs = 5000 := by decide
+
+/-- every event keeps the invariant until configuration mode starts -/
+theorem cbRun_inv (c : CbCfg) (es : List CbEv) : ∀ s, CbInv s → (cbRun c s es).2 = false → CbInv (cbRun c s es).1 := by
+  induction es with
+  | nil => intro s h _; exact h
+  | cons e es ih =>
+    intro s h hno
+    unfold cbRun at hno ⊢
+    simp only at hno ⊢
+    by_cases hr : (cbStep c s e).2 = true
+    · rw [if_pos hr] at hno; cases hno
+    · rw [if_neg hr] at hno ⊢
+      have hr' : (cbStep c s e).2 = false := by simpa using hr
+      apply ih _ _ hno
+      cases e with
+      | chg ns now => exact cbChange_inv c s ns now h hr'
+      | tick now => exact cbTick_inv c s now h
+
+/-- **C12.B (only the two gestures start configuration mode from the button)** for every sequence of recognised changes and
+    timer callbacks of a configuration button, from power-on: if configuration mode is started, then either by a callback
+    while the button had been held for the configured time since its last recognised change (a press), or by a change that
+    is at least the `count`-th in a row without a 2 s pause after a press -/
+theorem c12_button_starts_only_by_gesture (c : CbCfg) (hcount : 2 ≤ c.count) (es : List CbEv) :
+    ∀ s, CbInv s → (cbRun c s es).2 = true →
+    ∃ s0 e, CbInv s0 ∧ (cbStep c s0 e).2 = true ∧
+      ((∃ now, e = .tick now ∧ c.onHold = true ∧ s0.chgLvl = true ∧ now - s0.chgT ≥ c.pressUs) ∨
+       (∃ ns now, e = .chg ns now ∧ c.onToggle = true ∧ (cbChange c s0 ns now).1.streak ≥ c.count ∧
+          now - s0.lastAct < c.windowUs)) := by
+  induction es with
+  | nil => intro s _ h; simp [cbRun] at h
+  | cons e es ih =>
+    intro s hinv h
+    unfold cbRun at h
+    simp only at h
+    by_cases hr : (cbStep c s e).2 = true
+    · refine ⟨s, e, hinv, hr, ?_⟩
+      cases e with
+      | chg ns now =>
+        right
+        obtain ⟨t1, t2, t3⟩ := c12_toggle_needs_ten c s ns now hinv hcount hr
+        exact ⟨ns, now, rfl, t1, t2, t3⟩
+      | tick now =>
+        left
+        obtain ⟨t1, t2, t3⟩ := c12_hold_needs_press_time c s now hinv hr
+        exact ⟨now, rfl, t1, t2, t3⟩
+    · rw [if_neg hr] at h
+      have hr' : (cbStep c s e).2 = false := by simpa using hr
+      apply ih _ _ h
+      cases e with
+      | chg ns now => exact cbChange_inv c s ns now hinv hr'
+      | tick now => exact cbTick_inv c s now hinv
+
+/-- non-vacuity: a press held 5 s starts configuration mode by the callback at 5 s, not by the one at 4.98 s;
+    ten presses 300 ms apart start it at the tenth when toggling is enabled -/
+example :
+    let c : CbCfg := { typ := 2, onHold := true, onToggle := false, pressUs := 5000000, count := 10, windowUs := 2000000 }
+    (cbRun c {} [.chg true 10000000, .tick 14980000]).2 = false ∧ (cbRun c {} [.chg true 10000000, .tick 15000000]).2 = true := by
+  decide
+example :
+    let c : CbCfg := { typ := 2, onHold := false, onToggle := true, pressUs := 5000000, count := 10, windowUs := 2000000 }
+    let clicks (n : Nat) : List CbEv := (List.range n).flatMap (fun k => [.chg true (10000000 + 300000 * k), .chg false (10150000 + 300000 * k)])
+    (cbRun c {} (clicks 9)).2 = false ∧ (cbRun c {} (clicks 10)).2 = true := by decide
 
 end SuplaVerif.C12
